@@ -44,7 +44,7 @@ def measure_rows(keys, nrows, placed):
     return rows
 
 
-def chart_text(ctype, desc, diff, meter, measures, comments=False):
+def chart_text(ctype, desc, diff, meter, measures, comments=False, stray=False):
     body = []
     for mi, rows in enumerate(measures):
         lines = list(rows)
@@ -52,8 +52,9 @@ def chart_text(ctype, desc, diff, meter, measures, comments=False):
             # comment line, blank line, a line of blanks, comments after a row and after the measure separator's line
             lines = ["  // measure %d: first; of many" % mi] + [lines[0] + "  // row 0", lines[1] + "// row 1"] + ["", "  "] + lines[2:-1] + [lines[-1] + " // last"]
         body.append("\n".join(lines))
-    return "//--------- %s - %s ----------\n#NOTES:\n     %s:\n     %s:\n     %s:\n     %s:\n     0.1,0.2,0.3,0.4,0.5:\n%s\n;\n" % (
-        ctype, desc, ctype, desc, diff, meter, "\n,\n".join(body))
+    # stray=True: the separator line carries no comment marker; text between ';' and the next '#' is skipped by the MSD rules
+    return ("" if stray else "//") + "--------- %s - %s ----------\n#NOTES:\n     %s:\n     %s:\n     %s:\n     %s:\n     0.1,0.2,0.3,0.4,0.5:\n%s\n;\n" % (
+        ctype, desc.replace(":", " "), ctype, desc, diff, meter, "\n,\n".join(body))
 
 
 # chart patterns: list of measures, each (nrows, {(row, col): symbol})
@@ -84,7 +85,7 @@ BPM_SETS = {
 }
 
 
-def build(ctx, charts, bpm_set, stops_tag="#STOPS:;\n", selectable="YES", comments=False, title="Song", header_comment=False):
+def build(ctx, charts, bpm_set, stops_tag="#STOPS:;\n", selectable="YES", comments=False, title="Song", header_comment=False, stray=False):
     tk = ctx.tok
     off = ctx.real("offset")
     Ls = []
@@ -100,7 +101,7 @@ def build(ctx, charts, bpm_set, stops_tag="#STOPS:;\n", selectable="YES", commen
         ctype = TYPES[keys] if isinstance(keys, int) else keys[1]  # (columns, chart type) for types the key count does not name
         keys = keys if isinstance(keys, int) else keys[0]
         ms = [measure_rows(keys, n, placed) for n, placed in (patterns(keys)[pname] if isinstance(pname, str) else pname)]
-        text += chart_text(ctype, desc, diff, meter, ms, comments=comments)
+        text += chart_text(ctype, desc, diff, meter, ms, comments=comments, stray=stray)
     if header_comment:
         # comment lines in the header, one of them containing '#'
         text = text.replace("#OFFSET:", "// synced against take #2 of the master\n#OFFSET:").replace("#BPMS:", "// tempo #1: see notes\n#BPMS:")
@@ -183,10 +184,10 @@ def check_header(ctx, label, sms, d, vars_):
         ctx.check(label + ".header[#SELECTABLE]", sms.selectable == (h["#SELECTABLE"] == "YES"))
 
 
-def ob_read(charts, bpm_set, ctx, stops_tag="#STOPS:;\n", selectable="YES", comments=False, as_lines=False, header_comment=False):
+def ob_read(charts, bpm_set, ctx, stops_tag="#STOPS:;\n", selectable="YES", comments=False, as_lines=False, header_comment=False, stray=False):
     from reamber.sm import SMMapSet
 
-    text, vars_ = build(ctx, charts, bpm_set, stops_tag=stops_tag, selectable=selectable, comments=comments, header_comment=header_comment)
+    text, vars_ = build(ctx, charts, bpm_set, stops_tag=stops_tag, selectable=selectable, comments=comments, header_comment=header_comment, stray=stray)
     sms = SMMapSet.read(text.split("\n") if as_lines else text)
     d = ref.parse(ctx, text)
     ctx.check("reference.well-formed-input", all(not c["ill_formed"] for c in d["charts"]), note="%s" % [c["ill_formed"] for c in d["charts"]])
@@ -272,6 +273,9 @@ def obligations(tier, seed):
         for pn, bs in (("taps", "mid-measure"), ("roll+hold", "one"), ("mixed-symbols", "measure-line")) if not quick else (("mixed-symbols", "mid-measure"), ("roll+hold", "one")):
             obs.append(Obligation("C02/read/%s/%s/bpms=%s" % (ctype, pn, bs), partial(ob_read, [((width, ctype), pn, "d", "Edit", 3)], bs),
                                   bound="chart type %s with %d columns, pattern %s, #BPMS %s" % (ctype, width, pn, BPM_SETS[bs])))
+    for mi, charts in enumerate(multi[:2]):
+        obs.append(Obligation("C02/read/stray-text-between-tags/multi%d" % mi, partial(ob_read, charts, "mid+line", stray=True),
+                              bound="charts %s, each #NOTES tag preceded by a line of text without comment marker (skipped by the MSD rules)" % (charts,)))
     obs.append(Obligation("C02/read/as-line-list", partial(ob_read, one, "measure-line", as_lines=True), bound="SMMapSet.read given a list of lines"))
     obs.append(Obligation("C02/read/selectable-no", partial(ob_read, one, "one", selectable="NO"), bound="#SELECTABLE:NO"))
     return obs
